@@ -10,6 +10,7 @@ def waitCase (c : S) : List String :=
   | _ :: _ :: _ :: .atom "duration" :: x :: _ => [toString (Command.waitNanos ⟨x.toNat⟩)]
   | _ :: _ :: _ :: .atom "timing" :: _ => ["TIMING ok"]
   | _ :: _ :: _ :: .atom "shape" :: _ => ["SHAPE ok"]
+  | _ :: _ :: _ :: .atom "abandon" :: _ => ["ABANDON ok"]
   | _ => ["BADKIND"]
 
 end Ysgo.Drv
